@@ -71,6 +71,11 @@ class BitStore:
             if x.modified_length > len(x._bitarray):
                 raise CreationError(
                     f"Can't create bitstring with a length of {x.modified_length} from {len(x._bitarray)} bits of data.")
+            if x.modified_length < len(x._bitarray):
+                # Most methods work on the whole of the bitarray, so if only part of the buffer is wanted
+                # then that part is read into memory rather than being a view on the whole buffer.
+                x._bitarray = x._bitarray[:x.modified_length]
+                x.modified_length = None
         return x
 
     def setall(self, value: int, /) -> None:
